@@ -53,13 +53,16 @@ PROPS = {
         'level': 'proof',
     },
     'C15': {
-        'modules': ['contracts.c15_deps'],
+        'modules': ['contracts.c15_deps', 'contracts.c15_toposort'],
         'standins': ['isar_order'],
         'trusted': PYVC_TRUST + ['re.findall tokenisation of identifiers (_expression_symbols)'],
-        'assumptions': ['topological_sort itself (closures mutating a shared index, hybrid sets) is out of reach of PyVC as built: bounded stand-in only',
+        'assumptions': ['topological_sort is proved against abstract nodes (name, dependencies(), Enum members as uninterpreted functions); '
+                        'that dependencies() yields what its own contract (c15_deps) says links the two',
+                        'acyclic input is stated as: a rank of names in [0, len(nodes)) that every dependency on another-named node of the list lowers',
+                        'IsarParser.parse (collection by element kind) and the end-to-end claim (equal layouts for every permutation) are '
+                        'exercised by the bounded stand-in',
                         'sack input needs libclang Python bindings that are not installed: not checked'],
-        'level': 'other',
-        'explanation': 'dependencies() of every node kind are under contract (proved); topological_sort is decided by the bounded stand-in only',
+        'level': 'proof',
     },
     'C12': {
         'modules': ['contracts.c12_legal', 'contracts.c04_model'],
@@ -69,7 +72,7 @@ PROPS = {
         'level': 'proof',
     },
     'C13': {
-        'modules': ['contracts.c14_expr', 'contracts.c13_term'],
+        'modules': ['contracts.c14_expr', 'contracts.c13_term', 'contracts.c15_toposort'],
         'standins': ['prophyc_robust', 'isar_order'],
         'trusted': PYVC_TRUST + ['ply / ElementTree / argparse internals (assumed contracts)'],
         'assumptions': ['exception classes the property does not list (xml ParseError, the bare Exception of patch.py, OSError) are reported as notes'],
@@ -86,7 +89,7 @@ PROPS = {
         'level': 'proof',
     },
     'C17': {
-        'modules': ['contracts.c17_patch'],
+        'modules': ['contracts.c17_patch', 'contracts.c17_isar'],
         'standins': ['frontends'],
         'trusted': PYVC_TRUST + ['ElementTree (xml parsing) assumed'],
         'assumptions': ['the isar <dimension> form table is taken from the property statement and the isar convention (one form documented)'],
